@@ -71,5 +71,11 @@ TEXTS = {
         "level_note": "Trusts recover() in the harness to observe panics, the ingestion barriers for the stall verdict (twice, fresh databases), and the reference of what a valid point must produce. The unterminated-back-quote hang of the dependency parser is probed in a memory-capped child process.",
         "technique": "grammar-aware mutation PBT (rapid) + native coverage-guided fuzzing; crash/stall oracle + content oracle",
     },
+    "C19": {
+        "level_text": "Exhaustive enumeration of the credential x endpoint x configuration lattice (a finite space, enumerated completely on every run) plus generated near-miss credentials, against the real RPC servers and web handlers on loopback. The lattice part is complete for the listed credential classes; near-miss generation samples the neighbourhood of valid credentials.",
+        "design_ref": "DESIGN.md section 4 C19",
+        "level_note": "Trusts the GitHub stub (http.DefaultTransport replacement) and gorilla/securecookie for crafting cookies with known keys; TLS and the OAuth code exchange are outside the statement.",
+        "technique": "exhaustive lattice enumeration + property-based near-miss generation (rapid), access-control truth table oracle",
+    },
 }
 NOT_APPLICABLE = []
